@@ -955,6 +955,14 @@ class SymPattern:
 
 
 # --------------------------------------------------------------------------------------
+def _fingerprint(t):
+    """syntactic fingerprint of a decision, used to detect non-deterministic re-execution.  Large
+    character-level terms are not fingerprinted: z3's simplifier orders commutative arguments by
+    internal ids, which differ between executions although the term is the same."""
+    s = t.sexpr()
+    return hash(s) if len(s) < 400 else None
+
+
 class Engine:
     """Depth-first exploration of all feasible paths of `fn` by re-execution."""
 
@@ -1065,7 +1073,7 @@ class Engine:
             self.profile[key] = self.profile.get(key, 0) + 1
         if k < len(self._prefix):
             d, fp = self._prefix[k]
-            if fp != hash(t.sexpr()):
+            if fp is not None and fp != _fingerprint(t):
                 raise Inconclusive("re-execution is not deterministic: decision %d differs from the recorded one (%s)" % (k, str(t)[:200]))
             m = self._model
             if m is not None:
@@ -1088,7 +1096,7 @@ class Engine:
                 can_f, mf = self._check([z3.Not(t)])
             if can_t and can_f:
                 d = True
-                self._todo.append(self._prefix_now() + [(False, hash(t.sexpr()))])
+                self._todo.append(self._prefix_now() + [(False, _fingerprint(t))])
             elif can_t:
                 d = True
             elif can_f:
@@ -1097,7 +1105,7 @@ class Engine:
                 raise PathAbort()
             m = mt if d else mf
         self._model = m
-        self._decisions.append((d, hash(t.sexpr())))
+        self._decisions.append((d, _fingerprint(t)))
         c = t if d else z3.Not(t)
         self._solver_assertions.append(c)
         self._pc.append(c)
